@@ -44,25 +44,58 @@ def Touched : Node → List Op → Nat → Prop
   | _, [], _ => False
   | st, op :: t, x => touchedBy st op x ∨ Touched (step st op) t x
 
+theorem supHi_single (v : Nat) : supHi [(v, v)] = v := by simp [supHi]
+
+/-- what one chunk does: nothing (already known / inverted range), or it is accepted — as a cleared
+version when it spans `0..=last_seq` (it carries no changes), as a buffered part otherwise -/
 theorem opPartial_cases {L : Nat → Nat} {st : Node} (h : Inv L st) {v : Nat} (seqs : Nat × Nat) (hv : 1 ≤ v) :
-    (opPartial st v seqs (L v) = .skipped) ∨ (opPartial st v seqs (L v) = .invalid) ∨
-    (∃ st', opPartial st v seqs (L v) = .done st' ∧
-      containsAll st.book (v, v) (some seqs) = false ∧ seqs.1 ≤ seqs.2 ∧ Inv L st' ∧
+    (step st (.part v seqs (L v)) = st ∧ ¬ ∃ st', opPartial st v seqs (L v) = .done st') ∨
+    (∃ st', opPartial st v seqs (L v) = .done st' ∧ step st (.part v seqs (L v)) = st' ∧
+      containsAll st.book (v, v) (some seqs) = false ∧ Inv L st' ∧
       st'.book.max.getD 0 = max (st.book.max.getD 0) v ∧
-      st'.book.partials =
-        pmPut st.book.partials v ⟨RSet.insert (seqsOf st.book.partials v) seqs, L v⟩ ∧
       (∀ x, Mem st'.book.needed x ↔
-        (Mem st.book.needed x ∨ (st.book.max.getD 0 + 1 ≤ x ∧ x ≤ v)) ∧ x ≠ v)) := by
+        (Mem st.book.needed x ∨ (st.book.max.getD 0 + 1 ≤ x ∧ x ≤ v)) ∧ x ≠ v) ∧
+      (st'.book.partials = st.book.partials.filter (fun e => !coveredBy [(v, v)] e.1) ∨
+       (seqs.1 ≤ seqs.2 ∧ st'.book.partials =
+          pmPut st.book.partials v ⟨RSet.insert (seqsOf st.book.partials v) seqs, L v⟩))) := by
   by_cases hc : containsAll st.book (v, v) (some seqs) = true
-  · exact Or.inl (by simp only [opPartial, hc, if_true])
-  · by_cases hi : seqs.2 < seqs.1
-    · exact Or.inr (Or.inl (by simp only [opPartial, hc, hi, if_true, Bool.false_eq_true, if_false]))
-    · obtain ⟨b', mg, e1, e2, e3, e4, e5, e6, e7⟩ := opPartial_inv h (seqs := seqs) hv (by omega)
-      refine Or.inr (Or.inr ⟨_, by simp only [opPartial, hc, hi, Bool.false_eq_true, if_false, e2, e1], by simpa using hc,
-        by omega, e3, e5, e4, ?_⟩)
-      intro x
-      show Mem (insertPartial b' v ⟨[mg], L v⟩).1.needed x ↔ _
-      rw [e6]; exact e7 x
+  · left
+    have ho : opPartial st v seqs (L v) = .skipped := by simp only [opPartial, hc, if_true]
+    refine ⟨by simp only [step, ho], ?_⟩
+    rintro ⟨st', hd⟩; rw [ho] at hd; cases hd
+  · have hcf : containsAll st.book (v, v) (some seqs) = false := by simpa using hc
+    by_cases hw : seqs.1 = 0 ∧ seqs.2 = L v
+    · right
+      obtain ⟨st', e1, e2, e3, e4, e5⟩ := wholeVersions_inv h (rs := [(v, v)]) (by simp)
+        (by intro r hr; simp at hr; subst hr; exact ⟨hv, Nat.le_refl _⟩)
+      have ho : opPartial st v seqs (L v) = .done st' := by
+        simp only [opPartial, hc, hw, Bool.false_eq_true, if_false, and_self, if_true, e1]
+      refine ⟨st', ho, by simp only [step, ho], hcf, e2, ?_, ?_, Or.inl e4⟩
+      · rw [e3, supHi_single]; rfl
+      · intro x
+        rw [e5 x, supHi_single]
+        simp only [List.mem_singleton, exists_eq_left]
+        constructor
+        · rintro ⟨a, b⟩; exact ⟨a, by omega⟩
+        · rintro ⟨a, b⟩; exact ⟨a, by omega⟩
+    · by_cases hi : seqs.2 < seqs.1
+      · left
+        have ho : opPartial st v seqs (L v) = .invalid := by
+          simp only [opPartial, hc, hw, hi, Bool.false_eq_true, if_true, if_false]
+        refine ⟨by simp only [step, ho], ?_⟩
+        rintro ⟨st', hd⟩; rw [ho] at hd; cases hd
+      · right
+        obtain ⟨b', mg, e1, e2, e3, e4, e5, e6, e7⟩ := opPartial_inv h (seqs := seqs) hv (by omega)
+        have ho : opPartial st v seqs (L v) = .done
+            ⟨(insertPartial b' v ⟨[mg], L v⟩).1,
+             { st.db with gaps := b'.needed,
+                          seqs := seqRowsOf (pmPut st.book.partials v
+                            ⟨RSet.insert (seqsOf st.book.partials v) mg, L v⟩) }⟩ := by
+          simp only [opPartial, hc, hw, hi, Bool.false_eq_true, if_false, e2, e1]
+        refine ⟨_, ho, by simp only [step, ho], hcf, e3, e5, ?_, Or.inr ⟨by omega, e4⟩⟩
+        intro x
+        show Mem (insertPartial b' v ⟨[mg], L v⟩).1.needed x ↔ _
+        rw [e6]; exact e7 x
 
 /-- one step against the history: the head only grows, everything touched is in `1..=head'`,
 `needed' = (needed ∪ (head, head']) \ touched`, and a head that moved is a touched version. -/
@@ -76,10 +109,7 @@ theorem step_needed {L : Nat → Nat} {st : Node} (h : Inv L st) {op : Op} (hop 
       touchedBy st op ((step st op).book.max.getD 0)) := by
   cases op with
   | ins rs =>
-    obtain ⟨st', e1, _, e3, _, e5⟩ := opInsert_inv h hop.1 hop.2
-    have hstep : step st (.ins rs) = st' := by simp only [step, e1]
-    rw [hstep]
-    have hm : st'.book.max.getD 0 = max (st.book.max.getD 0) (supHi rs) := by rw [e3]; rfl
+    obtain ⟨_, hm, _, e5⟩ := opInsert_inv h hop.1 hop.2
     rw [hm]
     refine ⟨by omega, ?_, ?_, ?_⟩
     · rintro x ⟨r, hr, h1, h2⟩
@@ -107,33 +137,18 @@ theorem step_needed {L : Nat → Nat} {st : Node} (h : Inv L st) {op : Op} (hop 
   | part v seqs last =>
     obtain ⟨hv, hl⟩ := hop
     subst hl
-    rcases opPartial_cases h seqs hv with hc | hc | ⟨st', hc, _, _, _, e4, _, e6⟩
-    · have hstep : step st (.part v seqs (L v)) = st := by simp only [step, hc]
-      rw [hstep]
+    rcases opPartial_cases h seqs hv with ⟨hstep, hnd⟩ | ⟨st', hc, hstep, _, _, e4, e6, _⟩
+    · rw [hstep]
       refine ⟨Nat.le_refl _, ?_, ?_, Or.inl rfl⟩
-      · rintro x ⟨_, st', hd⟩; rw [hc] at hd; cases hd
+      · rintro x ⟨_, hd⟩; exact absurd hd hnd
       · intro x
         constructor
         · intro hx
-          refine ⟨Or.inl hx, ?_⟩
-          rintro ⟨_, st', hd⟩; rw [hc] at hd; cases hd
+          exact ⟨Or.inl hx, fun hh => hnd hh.2⟩
         · rintro ⟨h1 | h1, _⟩
           · exact h1
           · omega
-    · have hstep : step st (.part v seqs (L v)) = st := by simp only [step, hc]
-      rw [hstep]
-      refine ⟨Nat.le_refl _, ?_, ?_, Or.inl rfl⟩
-      · rintro x ⟨_, st', hd⟩; rw [hc] at hd; cases hd
-      · intro x
-        constructor
-        · intro hx
-          refine ⟨Or.inl hx, ?_⟩
-          rintro ⟨_, st', hd⟩; rw [hc] at hd; cases hd
-        · rintro ⟨h1 | h1, _⟩
-          · exact h1
-          · omega
-    · have hstep : step st (.part v seqs (L v)) = st' := by simp only [step, hc]
-      rw [hstep, e4]
+    · rw [hstep, e4]
       have htb : ∀ x, touchedBy st (.part v seqs (L v)) x ↔ x = v := by
         intro x
         simp only [touchedBy]
@@ -220,41 +235,17 @@ theorem run_needed {L : Nat → Nat} : ∀ (ops : List Op) (st : Node), Inv L st
         · rw [i4]; exact Or.inr (Or.inl s4)
       · exact Or.inr (Or.inr i4)
 
-/-! ### versions inserted as complete / cleared changesets -/
+/-! ### versions that arrived as a whole (complete / cleared changesets) -/
 
-/-- `x` was covered by a complete / cleared changeset of `ops` -/
+/-- `x` was covered by a whole-version changeset of `ops` (whether or not the `contains_all` guard
+then dropped it as already known) -/
 def Completed (ops : List Op) (x : Nat) : Prop :=
   ∃ rs, Op.ins rs ∈ ops ∧ ∃ r ∈ rs, r.1 ≤ x ∧ x ≤ r.2
 
-/-- versions that `op` inserts as a complete / cleared changeset -/
+/-- versions that `op` brings as a whole -/
 def completeBy : Op → Nat → Prop
   | .ins rs, x => ∃ r ∈ rs, r.1 ≤ x ∧ x ≤ r.2
   | _, _ => False
-
-/-- `op` does not bring a complete changeset for a version that is, at that moment, an
-*incomplete* partial in memory -/
-def CleanOp (st : Node) : Op → Prop
-  | .ins rs => ∀ e ∈ st.book.partials, e.2.isComplete = false → ¬ ∃ r ∈ rs, r.1 ≤ e.1 ∧ e.1 ≤ r.2
-  | _ => True
-
-/-- no complete changeset ever arrives for a version that is, at that moment, an *incomplete*
-partial in memory (see `advertised_held_counterexample` in Props/C02.lean for what happens
-otherwise) -/
-def CleanFrom : Node → List Op → Prop
-  | _, [] => True
-  | st, op :: t => CleanOp st op ∧ CleanFrom (step st op) t
-
-instance (st : Node) (op : Op) : Decidable (CleanOp st op) := by
-  cases op <;> unfold CleanOp <;> infer_instance
-
-/-- `CleanFrom` is decidable (used for the concrete `example`s only) -/
-def CleanFrom.dec : (st : Node) → (ops : List Op) → Decidable (CleanFrom st ops)
-  | _, [] => isTrue trivial
-  | st, op :: t => by
-    unfold CleanFrom
-    exact @instDecidableAnd _ _ _ (CleanFrom.dec (step st op) t)
-
-instance (st : Node) (ops : List Op) : Decidable (CleanFrom st ops) := CleanFrom.dec st ops
 
 /-- every version of `C` is known, not needed, and if buffered as a partial then completely -/
 def HeldOk (C : Nat → Prop) (st : Node) : Prop :=
@@ -288,6 +279,13 @@ theorem lookup_pmPut_ne (m : PMap) {v x : Nat} (p : Partial) (hx : ¬ x = v) :
         · subst hxk; rw [lookup_cons_eq, lookup_cons_eq]
         · rw [lookup_cons_ne hxk, lookup_cons_ne hxk]; exact ih
 
+/-- an entry found in a filtered partial map is the entry of the full map, and passes the filter -/
+theorem lookup_filter_some {lb : Nat} {P : PMap} (hk : KeysFrom lb P) {f : Nat × Partial → Bool}
+    {x : Nat} {p : Partial} (h : (P.filter f).lookup x = some p) :
+    P.lookup x = some p ∧ f (x, p) = true := by
+  have hm := List.mem_filter.mp (mem_of_lookup h)
+  exact ⟨lookup_of_mem hk hm.1, hm.2⟩
+
 theorem containsAll_single (b : Book) (v : Nat) (s : Option (Nat × Nat)) :
     containsAll b (v, v) s = contains b v s := by
   unfold containsAll
@@ -295,84 +293,86 @@ theorem containsAll_single (b : Book) (v : Nat) (s : Option (Nat × Nat)) :
   simp [this]
 
 theorem heldOk_step {L : Nat → Nat} {st : Node} (h : Inv L st) {op : Op} (hop : OpOk L op)
-    (hclean : CleanOp st op) {C : Nat → Prop} (hC : HeldOk C st) :
+    {C : Nat → Prop} (hC : HeldOk C st) :
     HeldOk (fun x => C x ∨ completeBy op x) (step st op) := by
   cases op with
   | ins rs =>
-    obtain ⟨st', e1, _, e3, e4, e5⟩ := opInsert_inv h hop.1 hop.2
-    have hstep : step st (.ins rs) = st' := by simp only [step, e1]
-    rw [hstep]
-    have hm : st'.book.max.getD 0 = max (st.book.max.getD 0) (supHi rs) := by rw [e3]; rfl
+    obtain ⟨_, hm, hp, hn⟩ := opInsert_inv h hop.1 hop.2
     intro x hx
-    rw [hm, e4, e5 x]
+    rw [hm, hp, hn x]
     rcases hx with hx | ⟨r, hr, hxr⟩
     · obtain ⟨c1, c2, c3⟩ := hC x hx
-      refine ⟨?_, by omega, c3⟩
-      rintro ⟨h1 | h1, _⟩
-      · exact c1 h1
-      · omega
+      refine ⟨?_, by omega, ?_⟩
+      · rintro ⟨h1 | h1, _⟩
+        · exact c1 h1
+        · omega
+      · intro p hpl
+        exact c3 p (lookup_filter_some h.keys hpl).1
     · refine ⟨fun hh => hh.2 ⟨r, hr, hxr⟩, ?_, ?_⟩
       · have := le_supHi hr; omega
-      · intro p hp
-        cases hc : p.isComplete with
-        | true => rfl
-        | false => exact absurd ⟨r, hr, hxr⟩ (hclean (x, p) (mem_of_lookup hp) hc)
+      · intro p hpl
+        obtain ⟨hl, hf⟩ := lookup_filter_some h.keys hpl
+        -- the range was not processed (else `x` would be covered): the guard knew it as a whole
+        by_cases hg : containsAll st.book r none = true
+        · have hcx := containsAll_true hg x hxr.1 hxr.2
+          unfold contains at hcx
+          rw [hl] at hcx
+          simp only [Bool.and_eq_true] at hcx
+          exact hcx.2
+        · exfalso
+          have hin : r ∈ rs.filter (fun r => !containsAll st.book r none) :=
+            List.mem_filter.mpr ⟨hr, by simpa using hg⟩
+          have hcov : coveredBy (rs.filter (fun r => !containsAll st.book r none)) x = true :=
+            (coveredBy_iff _ _).mpr ⟨r, hin, hxr⟩
+          simp only [hcov, Bool.not_true] at hf
+          cases hf
   | part v seqs last =>
     obtain ⟨hv, hl⟩ := hop
     subst hl
-    rcases opPartial_cases h seqs hv with hc | hc | ⟨st', hc, hnc, hlh, hinv, e4, e5, e6⟩
-    · have hstep : step st (.part v seqs (L v)) = st := by simp only [step, hc]
-      rw [hstep]; intro x hx
+    rcases opPartial_cases h seqs hv with ⟨hstep, _⟩ | ⟨st', _, hstep, hnc, _, e4, e6, hparts⟩
+    · rw [hstep]; intro x hx
       rcases hx with hx | hx
       · exact hC x hx
       · cases hx
-    · have hstep : step st (.part v seqs (L v)) = st := by simp only [step, hc]
-      rw [hstep]; intro x hx
-      rcases hx with hx | hx
-      · exact hC x hx
-      · cases hx
-    · have hstep : step st (.part v seqs (L v)) = st' := by simp only [step, hc]
-      rw [hstep]
+    · rw [hstep]
       intro x hx
       rcases hx with hx | hx
       · obtain ⟨c1, c2, c3⟩ := hC x hx
-        rw [e4, e5, e6 x]
+        rw [e4, e6 x]
         refine ⟨?_, by omega, ?_⟩
         · rintro ⟨h1 | h1, _⟩
           · exact c1 h1
           · omega
         · intro p hp
-          by_cases hxv : x = v
-          · subst hxv
-            rw [lookup_pmPut_eq] at hp
-            cases hp
-            -- `x` is known, yet the chunk was not skipped: it is a (complete) partial
-            rw [containsAll_single] at hnc
-            unfold contains at hnc
-            have hcv : containsVersion st.book x = true := by
-              unfold containsVersion
-              have := contains_iff st.book.needed x
-              unfold RSet.contains at this
-              cases hb : st.book.needed.any (fun r => decide (r.1 ≤ x) && decide (x ≤ r.2)) with
-              | true => exact absurd (this.mp hb) c1
-              | false => simp; exact c2
-            rw [hcv] at hnc
-            cases hl : st.book.partials.lookup x with
-            | none => rw [hl] at hnc; simp at hnc
-            | some p0 =>
-              have hp0 := c3 p0 hl
-              have hpw := h.pwf _ (mem_of_lookup hl)
-              have hs0 : seqsOf st.book.partials x = p0.seqs := by simp [seqsOf, hl]
-              rw [hs0]
-              have hwf' : WF (RSet.insert p0.seqs seqs) := insert_wf _ seqs.1 seqs.2 hlh hpw.1
-              apply (isComplete_iff (p := ⟨RSet.insert p0.seqs seqs, L x⟩) hwf').mpr
-              intro q hq
-              have := (isComplete_iff hpw.1).mp hp0 q (by rw [hpw.2.2]; exact hq)
-              show Mem (RSet.insert p0.seqs (seqs.1, seqs.2)) q
-              rw [mem_insert _ _ _ _ hlh]
-              exact Or.inl this
-          · rw [lookup_pmPut_ne _ _ hxv] at hp
-            exact c3 p hp
+          rcases hparts with hparts | ⟨hlh, hparts⟩
+          · rw [hparts] at hp
+            exact c3 p (lookup_filter_some h.keys hp).1
+          · rw [hparts] at hp
+            by_cases hxv : x = v
+            · subst hxv
+              rw [lookup_pmPut_eq] at hp
+              cases hp
+              -- `x` is known, yet the chunk was not skipped: it is a (complete) partial
+              rw [containsAll_single] at hnc
+              unfold contains at hnc
+              have hcv : containsVersion st.book x = true := (containsVersion_iff _ _).mpr ⟨c1, c2⟩
+              rw [hcv] at hnc
+              cases hl : st.book.partials.lookup x with
+              | none => rw [hl] at hnc; simp at hnc
+              | some p0 =>
+                have hp0 := c3 p0 hl
+                have hpw := h.pwf _ (mem_of_lookup hl)
+                have hs0 : seqsOf st.book.partials x = p0.seqs := by simp [seqsOf, hl]
+                rw [hs0]
+                have hwf' : WF (RSet.insert p0.seqs seqs) := insert_wf _ seqs.1 seqs.2 hlh hpw.1
+                apply (isComplete_iff (p := ⟨RSet.insert p0.seqs seqs, L x⟩) hwf').mpr
+                intro q hq
+                have := (isComplete_iff hpw.1).mp hp0 q (by rw [hpw.2.2]; exact hq)
+                show Mem (RSet.insert p0.seqs (seqs.1, seqs.2)) q
+                rw [mem_insert _ _ _ _ hlh]
+                exact Or.inl this
+            · rw [lookup_pmPut_ne _ _ hxv] at hp
+              exact c3 p hp
       · cases hx
   | reload =>
     have hstep : step st .reload = st := by
@@ -384,20 +384,20 @@ theorem heldOk_step {L : Nat → Nat} {st : Node} (h : Inv L st) {op : Op} (hop 
     · cases hx
 
 theorem heldOk_run {L : Nat → Nat} : ∀ (ops : List Op) (st : Node) (C : Nat → Prop), Inv L st →
-    (∀ op ∈ ops, OpOk L op) → CleanFrom st ops → HeldOk C st →
+    (∀ op ∈ ops, OpOk L op) → HeldOk C st →
     HeldOk (fun x => C x ∨ Completed ops x) (run st ops) := by
   intro ops
   induction ops with
   | nil =>
-    intro st C _ _ _ hC x hx
+    intro st C _ _ hC x hx
     rcases hx with hx | ⟨rs, hrs, _⟩
     · exact hC x hx
     · cases hrs
   | cons op t ih =>
-    intro st C h hops hcl hC
+    intro st C h hops hC
     have hop := hops op (by simp)
-    have h1 := heldOk_step h hop hcl.1 hC
-    have h2 := ih (step st op) _ (step_inv h hop) (fun o ho => hops o (by simp [ho])) hcl.2 h1
+    have h1 := heldOk_step h hop hC
+    have h2 := ih (step st op) _ (step_inv h hop) (fun o ho => hops o (by simp [ho])) h1
     have hrun : run st (op :: t) = run (step st op) t := by simp [run]
     rw [hrun]
     intro x hx
